@@ -1,4 +1,101 @@
-(* Executable interface of the Lex layer (op codes 3000..3099). Stub until the layer is built. *)
-From A1 Require Import Base.Res.
+(* Executable interface of the Lex layer (op codes 3000..3099).
+   3001  input  = the code points of the whole text
+         output = 0 :: ntokens :: per token (kind(0=Text,1=Separator) line column len codes...)
+                | 2 class          (panic)
+                | -2               (some input integer is not a Unicode scalar value: no &str exists)
+   3002  input  = k :: k opaque integers (layout metadata of checks/C13.py) ++ code points; output as 3001
+   3003  (model only; ties the Coq specification Front/LexProofs.v to the printer of checks/C13.py)
+         input  = a structured layout  g0 t1 g1 ... tn gn  as a flat event list:
+                    gap items  -20 space | -21 tab | -22 CR LF | -23 LF | -24 c.. line comment ended by LF
+                               | -26 c.. line comment ended by CR LF | -25 b.. block comment, b = c | -1 LF | -2 CR LF | -3 open | -4 close
+                    -10 end of gap;  -11 c separator item;  -12 c.. text item
+         output = 0 :: lex_safeb :: |text| :: render ts gs ++ ntokens :: expect ts gs (encoded as in 3001)
+   Mirror: harness/a1h/src/lex.rs *)
+From A1 Require Import Base.Res Front.Lex Front.LexProofs.
 Local Open Scope Z_scope.
-Definition run_lex (m : mode) (op : Z) (a : list Z) : list Z := [-1].
+
+Definition is_scalar (z : Z) : bool :=
+  ((0 <=? z) && (z <? 55296)) || ((57344 <=? z) && (z <? 1114112)).
+
+Definition enc_token (t : token) : list Z :=
+  match t with
+  | Text l c s => 0 :: Z.of_N l :: Z.of_N c :: Z.of_nat (length s) :: map Z.of_N s
+  | Separator l c ch => [1; Z.of_N l; Z.of_N c; 1; Z.of_N ch]
+  end.
+
+Definition lex_text (m : mode) (a : list Z) : list Z :=
+  if forallb is_scalar a then
+    match tokenize m (map Z.to_N a) with
+    | Ok ts => 0 :: Z.of_nat (length ts) :: flat_map enc_token ts
+    | Err e => [1; Z.of_N e]
+    | Panic p => [2; Z.of_N p]
+    end
+  else [-2].
+
+(* ---- decoder of structured layouts (op 3003) ---- *)
+Inductive coll : Type :=
+| KNone | KSep | KText (r : list N) | KLine (crlf : bool) (r : list N) | KBlock (r : list citem).
+Record dst : Type := { d_ts : list ptoken; d_gs : list gap; d_g : list gitem; d_c : coll }.
+
+Definition close_coll (s : dst) : dst :=
+  match d_c s with
+  | KNone | KSep => {| d_ts := d_ts s; d_gs := d_gs s; d_g := d_g s; d_c := KNone |}
+  | KText r => {| d_ts := PText (rev r) :: d_ts s; d_gs := d_gs s; d_g := d_g s; d_c := KNone |}
+  | KLine b r => {| d_ts := d_ts s; d_gs := d_gs s; d_g := GLine (rev r) b :: d_g s; d_c := KNone |}
+  | KBlock r => {| d_ts := d_ts s; d_gs := d_gs s; d_g := GBlock (rev r) :: d_g s; d_c := KNone |}
+  end.
+Definition with_coll (s : dst) (c : coll) : dst :=
+  {| d_ts := d_ts s; d_gs := d_gs s; d_g := d_g s; d_c := c |}.
+Definition push_item (s : dst) (i : gitem) : dst :=
+  {| d_ts := d_ts s; d_gs := d_gs s; d_g := i :: d_g s; d_c := KNone |}.
+Definition block_item (s : dst) (i : citem) : dst :=
+  match d_c s with KBlock r => with_coll s (KBlock (i :: r)) | _ => s end.
+
+Definition dstep (s : dst) (z : Z) : dst :=
+  if 0 <=? z then
+    let c := Z.to_N z in
+    match d_c s with
+    | KNone => s
+    | KSep => {| d_ts := PSep c :: d_ts s; d_gs := d_gs s; d_g := d_g s; d_c := KNone |}
+    | KText r => with_coll s (KText (c :: r))
+    | KLine b r => with_coll s (KLine b (c :: r))
+    | KBlock r => with_coll s (KBlock (CChar c :: r))
+    end
+  else
+    match z with
+    | -1 => block_item s CNl
+    | -2 => block_item s CCrNl
+    | -3 => block_item s COpen
+    | -4 => block_item s CClose
+    | -10 => let s := close_coll s in
+             {| d_ts := d_ts s; d_gs := rev (d_g s) :: d_gs s; d_g := []; d_c := KNone |}
+    | -11 => with_coll (close_coll s) KSep
+    | -12 => with_coll (close_coll s) (KText [])
+    | -20 => push_item (close_coll s) GSpace
+    | -21 => push_item (close_coll s) GTab
+    | -22 => push_item (close_coll s) GCrLf
+    | -23 => push_item (close_coll s) GLf
+    | -24 => with_coll (close_coll s) (KLine false [])
+    | -26 => with_coll (close_coll s) (KLine true [])
+    | -25 => with_coll (close_coll s) (KBlock [])
+    | _ => s
+    end.
+
+Definition decode_layout (a : list Z) : list ptoken * list gap :=
+  let s := close_coll (fold_left dstep a {| d_ts := []; d_gs := []; d_g := []; d_c := KNone |}) in
+  (rev (d_ts s), rev (d_gs s)).
+
+Definition spec_layout (a : list Z) : list Z :=
+  let (ts, gs) := decode_layout a in
+  let text := render ts gs in
+  let e := expect ts gs in
+  0 :: (if lex_safeb ts gs then 1 else 0)
+    :: Z.of_nat (length text) :: map Z.of_N text ++ Z.of_nat (length e) :: flat_map enc_token e.
+
+Definition run_lex (m : mode) (op : Z) (a : list Z) : list Z :=
+  match op, a with
+  | 3001, _ => lex_text m a
+  | 3002, k :: rest => lex_text m (skipn (Z.to_nat k) rest)
+  | 3003, _ => spec_layout a
+  | _, _ => [-1]
+  end.
